@@ -25,6 +25,11 @@ class PathEnd(Exception):
     pass
 
 
+class RaisedInExpr(Exception):
+    """an expression certainly raises on this path (the raising outcome has been queued as a pending raise): the enclosing
+    statement has no normal outcome"""
+
+
 def I(t):
     return Opt(False, S._i(t))
 
@@ -552,6 +557,9 @@ class Exec:
         snapshot = st.copy()
         try:
             outs = list(m(node, st))
+        except RaisedInExpr:
+            yield from self.drain_pending_raises()
+            return
         except Unsupported as e:
             self.unsupported.append((node.lineno, str(e)))
             self.oblige(snapshot, "unreachable", f"unsupported@{self.rel_line(node)}", z3.BoolVal(False), node.lineno,
@@ -2401,6 +2409,7 @@ class FragResult:
 def find_fragment(fn, frag):
     first, last = frag["first"].strip(), frag["last"].strip()
     nth = int(frag.get("last_nth", 1))  # which occurrence of `last` after `first` closes the fragment
+    first_nth = [int(frag.get("first_nth", 1))]  # which occurrence of `first` (in source order) opens it
 
     def head(stmt):
         return ast.unparse(stmt).splitlines()[0].strip()
@@ -2408,6 +2417,9 @@ def find_fragment(fn, frag):
     def search(body):
         for i, st_ in enumerate(body):
             if head(st_) == first:
+                first_nth[0] -= 1
+                if first_nth[0] > 0:
+                    continue
                 seen = 0
                 for j in range(i, len(body)):
                     if head(body[j]) == last:
